@@ -354,9 +354,8 @@ def retryFetch (cfg : Cfg) (after : Option Rat) (s : St) : St :=
     { emit (.setTimer .retry d) s with attempts := s.attempts + 1, retryCall := .pending (s.now + d) }
   | _ => s
 
-/-- `_handle_offset_response` for both OffsetResponse (`isFetch = false`) and OffsetFetchResponse. -/
-def handleOffsetResponse (cfg : Cfg) (isFetch : Bool) (off : Int) (s : St) : St :=
-  let s := { s with requestD := .none }
+/-- `_handle_offset_response` after `self._request_d = None` -/
+def offsetResponseTail (cfg : Cfg) (isFetch : Bool) (off : Int) (s : St) : St :=
   if s.startD == .none then s else   -- stopped: late result of a cancelled request
   let s := { s with retryDelay := cfg.retryInit, attempts := 1 }
   let s :=
@@ -366,13 +365,20 @@ def handleOffsetResponse (cfg : Cfg) (isFetch : Bool) (off : Int) (s : St) : St 
     else { s with fetchOffset := off + 1, lastCommitted := some off }
   doFetch cfg s
 
-/-- `_handle_offset_error` -/
-def handleOffsetError (cfg : Cfg) (f : Fail) (s : St) : St :=
-  let s := { s with requestD := .none }
+/-- `_handle_offset_response` for both OffsetResponse (`isFetch = false`) and OffsetFetchResponse. -/
+def handleOffsetResponse (cfg : Cfg) (isFetch : Bool) (off : Int) (s : St) : St :=
+  offsetResponseTail cfg isFetch off { s with requestD := .none }
+
+/-- `_handle_offset_error` after `self._request_d = None` -/
+def offsetErrorTail (cfg : Cfg) (f : Fail) (s : St) : St :=
   if s.startD == .none then s   -- stopped: late result of a cancelled request
   else if s.stopping then s
   else if cfg.maxAttempts != 0 && s.attempts ≥ cfg.maxAttempts then startErrback f s
   else retryFetch cfg none s
+
+/-- `_handle_offset_error` -/
+def handleOffsetError (cfg : Cfg) (f : Fail) (s : St) : St :=
+  offsetErrorTail cfg f { s with requestD := .none }
 
 /-- `LoopingCall.reset()` (only acts while a call is scheduled). -/
 def looperReset (cfg : Cfg) (s : St) : St :=
@@ -606,15 +612,18 @@ def handleCommitError (f : Fail) (delay : Rat) (attempt : Nat) (s : St) : St :=
 def finishSimple (s : St) : St :=
   if s.msgBlock then { s with msgBlock := false, parked := none } else s
 
-/-- `_handle_fetch_error` -/
-def handleFetchError (f : Fail) (s : St) : St :=
-  let s := { s with requestD := .none }
+/-- `_handle_fetch_error` after `self._request_d = None` -/
+def fetchErrorTail (f : Fail) (s : St) : St :=
   if s.startD == .none then s else   -- stopped: late result of a cancelled request
   if f.isOutOfRange && cfg.reset.isNone then startErrback f s else
   let s := if f.isOutOfRange then { s with fetchOffset := cfg.reset.getD s.fetchOffset } else s
   if s.stopping then s
   else if cfg.maxAttempts != 0 && s.attempts ≥ cfg.maxAttempts then startErrback f s
   else retryFetch cfg none s
+
+/-- `_handle_fetch_error` -/
+def handleFetchError (f : Fail) (s : St) : St :=
+  fetchErrorTail cfg f { s with requestD := .none }
 
 /-- Hand the extracted messages to `_process_messages` (the `finally:` clause). -/
 def deliverBlock (msgs : List Msg) (s : St) : St :=
@@ -626,10 +635,9 @@ def deliverBlock (msgs : List Msg) (s : St) : St :=
 /-- `_handle_fetch_response` once no block is in progress.  `viaBlock`: invoked as a callback of
     `_msg_block_d` (a parked reply), where an exception is lost instead of reaching
     `_handle_fetch_error`. -/
-def fetchBody (viaBlock : Bool) (r : Reply) (s : St) : St :=
-  let s := { s with requestD := .none }
-  let (msgs, fo) := extract s.fetchOffset r.msgs
-  let s := { s with fetchOffset := fo }
+def fetchTail (viaBlock : Bool) (r : Reply) (s : St) : St :=
+  let msgs := (extract s.fetchOffset r.msgs).1
+  let s := { s with fetchOffset := (extract s.fetchOffset r.msgs).2 }
   match r.tail with
   | .done => retryFetch cfg (some 0) (deliverBlock cfg inner msgs s)
   | .small =>
@@ -644,6 +652,10 @@ def fetchBody (viaBlock : Bool) (r : Reply) (s : St) : St :=
   | .raise k t =>
     let s := deliverBlock cfg inner msgs s
     if viaBlock then s else handleFetchError cfg (.ext k t) s
+
+/-- `_handle_fetch_response` from `self._request_d = None` on -/
+def fetchBody (viaBlock : Bool) (r : Reply) (s : St) : St :=
+  fetchTail cfg inner viaBlock r { s with requestD := .none }
 
 /-- `_handle_fetch_response` -/
 def handleFetchResponse (k : Nat) (r : Reply) (s : St) : St :=
